@@ -103,7 +103,8 @@ def class_context(mod):
         names = []
         for n in cls.body:
             if isinstance(n, (ast.FunctionDef, ast.AsyncFunctionDef)) and n.name.startswith('__'):
-                names.append(n.name)
+                # special methods (constructors included) are part of what `Cls(...)`, ==, in ... mean at every use: their text counts
+                names.append(n.name + ':' + fn_hash(n))
             elif isinstance(n, ast.Assign):
                 names += [t.id for t in n.targets if isinstance(t, ast.Name)]
         out.append((cname, [ast.unparse(b) for b in cls.bases], [ast.unparse(d) for d in cls.decorator_list],
